@@ -11,7 +11,11 @@ import warnings
 
 import numpy as np
 
-from vlib import cnat, cnatl, cbool, cbl, clist, copt, cpair, cfloat, cz
+import glob
+import json
+import os
+
+from vlib import cnat, cnatl, cbool, cbl, clist, copt, cpair, cfloat, cz, VERIF
 
 ATOL = 1e-12
 RTOL = 1e-9
@@ -183,9 +187,21 @@ def mo_stepped(x):
 MULTI = {"two_spheres": mo_two_spheres, "zdt1": mo_zdt1, "stepped": mo_stepped}
 
 
-def make_constraints(n, m):
-    cs = [lambda x: bool(x[0] + x[1] < 0.1), lambda x: bool(x[1] < 0.1), lambda x: bool(x[-1] < 0.05)]
-    return cs[:m]
+def default_constraint_specs(n, m):
+    """the constraints of DEAP's own tests, as specs {"coef", "op", "b"}: violated iff coef.x op b"""
+    e = lambda *idx: [1.0 if j in [i % n for i in idx] else 0.0 for j in range(n)]
+    specs = [{"coef": e(0, 1) if n > 1 else e(0), "op": "lt", "b": 0.1}, {"coef": e(1), "op": "lt", "b": 0.1},
+             {"coef": e(-1), "op": "lt", "b": 0.05}]
+    return specs[:m]
+
+
+def make_constraints(specs):
+    def mk(sp):
+        coef, op, b = [float(c) for c in sp["coef"]], sp["op"], float(sp["b"])
+        if op == "lt":
+            return lambda x: bool(sum(c * xi for c, xi in zip(coef, x)) < b)
+        return lambda x: bool(sum(c * xi for c, xi in zip(coef, x)) > b)
+    return [mk(sp) for sp in specs]
 
 
 # ----------------------------------------------------------------------------------------------
@@ -432,9 +448,13 @@ def run_active(ctx, cfg):
     run = ctx.run
     creator = creator_classes()
     dim, lam, rounds = cfg["dim"], cfg["lambda"], cfg["rounds"]
-    ncons = cfg["constraints"]
+    specs = cfg["constraints"]
+    if isinstance(specs, int):
+        specs = default_constraint_specs(dim, specs)
+    ncons = len(specs)
     f = SINGLE[cfg["objective"]]
-    cons = make_constraints(dim, ncons)
+    cons = make_constraints(specs)
+    mode = cfg.get("parent_mode", "bare" if cfg.get("bare_parent") else "feasible")
     Ind = creator.C14IndCon if ncons else creator.C14IndMin
     rl = RandomLog(cfg["seed"])
     case0 = dict(cfg, kind="active")
@@ -448,11 +468,14 @@ def run_active(ctx, cfg):
         else:
             ind.fitness.values = f(ind)
 
-    if cfg["bare_parent"]:
-        parent = np.array(cfg["parent"], dtype=float)
+    if mode == "bare":
+        parent = np.array(cfg["parent"], dtype=float)           # no .fitness at all (as in DEAP's tests)
+    elif mode == "unevaluated":
+        parent = Ind(cfg["parent"])                             # fitness object without values
     else:
-        parent = Ind(cfg["parent"])
+        parent = Ind(cfg["parent"])                             # "feasible" / "infeasible": evaluated as the offspring are
         evaluate(parent)
+    ctx.hit("active.start_" + mode + ("_violating" if hasattr(parent, "fitness") and violates(fit_tuple(parent.fitness)) else ""))
     steps = cfg["steps"]
     with Patched(cma, rl):
         s = cma.StrategyActiveOnePlusLambda(parent, cfg["sigma"], steps, lambda_=lam)
@@ -585,6 +608,8 @@ def run_active(ctx, cfg):
             replaced = False
             best_round = None
         ctx.hit("active.replaced" if replaced else "active.kept")
+        if violates(pre["pfit"]) and valid and len(valid) < len(fts):
+            ctx.hit("active.violating_parent_mixed_generation")
         if post["pfit"] is not None and pre_has and fit_lt(post["pfit"], pre["pfit"]):
             run.oracle_violation("active: parent fitness got worse", case, observed=[pre["pfit"], post["pfit"]])
         if best_so_far is not None and (post["pfit"] is None or post["pfit"][0] != best_so_far[0]):
@@ -948,7 +973,7 @@ def main(run):
     run.rule = ("histories of generate/update rounds of the three strategies from seeded configurations: dimension 2..10 "
                 "(<= 6 for rounds sent to Coq), lambda 1..20, mu 1..10 (lambda = mu and lambda != mu), objectives sphere / "
                 "ellipsoid / rastrigin / plateau (ties) / maximisation, two shifted spheres / ZDT1 / stepped (duplicate "
-                "fitnesses), 1..3 constraints, integer steps; numpy.random draws recorded through a proxy in deap.cma's "
+                "fitnesses), 1..3 constraints (DEAP's own and parent-relative tight/loose ones) with infeasible / feasible / unevaluated / fitness-less initial parents, integer steps, corpus/C14_*.json first; numpy.random draws recorded through a proxy in deap.cma's "
                 "namespace. Every round is one case (distinct by configuration and round index); the oracle runs after "
                 "every round, a sample of rounds of every history goes to the Coq model.")
     run.trusted += ["Coq 8.16.1 kernel and vm_compute", "mathcomp 1.15 (matrix algebra, real closed fields)",
@@ -975,6 +1000,43 @@ def main(run):
     def rparent(dim, lo=-2.0, hi=3.0):
         return [round(rng.uniform(lo, hi), 3) for _ in range(dim)]
 
+    # ---------------- corpus: past misses, run first on every tier ----------------
+    for fn in sorted(glob.glob(os.path.join(VERIF, "corpus", "C14_*.json"))):
+        for cfg in json.load(open(fn))["cases"]:
+            cfg = dict(cfg)
+            cfg["send"] = set(range(min(cfg["rounds"], 12))) if cfg["dim"] <= 6 else set()
+            cfg["corpus"] = os.path.basename(fn)
+            {"active": run_active, "plain": run_plain, "mo": run_mo}[cfg.pop("kind")](ctx, cfg)
+    # ---------------- active (1+lambda), constrained, every kind of initial parent ----------------
+    # (a) infeasible parent: constraint_violation recorded, no values (compares <= everything),
+    # (b) feasible evaluated parent, (c) parent with a fitness object but never evaluated;
+    # the first constraint is placed m*sigma from the parent (tight m = 0.3 / loose m = 1.2) so that the
+    # first generations mix feasible and infeasible offspring
+    n_cs = run.scale(15, 90)
+    for h in range(n_cs):
+        lam = [1, 2, 5, 10, 20][h % 5]
+        mode = ["infeasible", "feasible", "unevaluated"][(h // 5) % 3]
+        tight = (h + h // 15) % 2 == 0
+        dim = rng.randint(2, 6) if h % 6 != 5 or not run.thorough else rng.randint(7, 10)
+        sigma = rng.choice([0.3, 0.5, 1.0])
+        parent = rparent(dim, -1.0, 2.0)
+        m = 0.3 if tight else 1.2
+        e0 = [1.0] + [0.0] * (dim - 1)
+        specs = [{"coef": e0, "op": "lt", "b": parent[0] + (m if mode == "infeasible" else -m) * sigma}]
+        if h % 3 != 0:
+            c2 = [0.0] * dim
+            c2[1 % dim] += 1.0
+            c2[2 % dim] += 1.0
+            specs.append({"coef": c2, "op": "gt", "b": sum(c * p for c, p in zip(c2, parent)) + (0.8 if tight else 2.0) * sigma})
+        if h % 3 == 2:
+            c3 = [0.0] * (dim - 1) + [1.0]
+            specs.append({"coef": c3, "op": "lt", "b": parent[-1] - 1.0 * sigma})
+        rounds = run.scale(25, 80)
+        cfg = {"dim": dim, "lambda": lam, "sigma": sigma, "parent": parent,
+               "objective": ["sphere", "ellipsoid", "step"][h % 3], "constraints": specs, "steps": [0.0] * dim,
+               "parent_mode": mode, "rounds": rounds, "seed": rng.randrange(2 ** 31)}
+        cfg["send"] = (set(range(6)) | pick_send(rng, rounds, run.scale(8, 14))) if dim <= 6 else set()
+        run_active(ctx, cfg)
     # ---------------- plain (1+lambda) ----------------
     n_hist = run.scale(16, 90)
     for h in range(n_hist):
@@ -1013,7 +1075,7 @@ def main(run):
         cfg = {"dim": dim, "lambda": lam, "sigma": 0.01 if far else rng.choice([0.2, 0.5, 1.0]), "parent": parent,
                "objective": "noise" if noisy else ("sphere" if far else ["sphere", "ellipsoid", "step", "rastrigin"][h % 4]),
                "constraints": ncons, "steps": steps,
-               "bare_parent": h % 5 == 4, "rounds": rounds, "seed": rng.randrange(2 ** 31)}
+               "parent_mode": "bare" if h % 5 == 4 else "feasible", "rounds": rounds, "seed": rng.randrange(2 ** 31)}
         cfg["send"] = pick_send(rng, rounds, run.scale(10, 25)) if dim <= 6 else set()
         run_active(ctx, cfg)
     # ---------------- multi-objective ----------------
